@@ -67,7 +67,8 @@ def close_handler(h):
             pass
 
 
-EVENTS = ['update', 'update', 'update_big', 'update_error', 'open', 'send_open', 'rr', 'notification', 'conn_lost', 'conn_failed', 'keepalive', 'update_bytes', 'open_none']
+EVENTS = ['update', 'update', 'update_big', 'update_error', 'open', 'send_open', 'rr', 'notification', 'conn_lost', 'conn_failed', 'keepalive', 'update_bytes', 'open_none',
+          'update_tuplekey', 'update_selfref', 'update_object']
 
 
 def payload(kind, rng):
@@ -79,6 +80,14 @@ def payload(kind, rng):
         # what the real decoder hands over for an address family it does not know: raw bytes
         return {'attr': {14: {'afi_safi': (2, 99), 'nexthop': b'\xfe\x80\xff\xfe', 'nlri': bytes([rng.randrange(128, 256) for _ in range(6)])}}, 'nlri': [], 'withdraw': [],
                 'afi_safi': None}
+    if kind == 'update_tuplekey':
+        return {'attr': {14: {'afi_safi': (1, 1), 'by_family': {(1, 1): ['10.0.0.0/8']}}}, 'nlri': [], 'withdraw': [], 'afi_safi': 'ipv4'}
+    if kind == 'update_selfref':
+        loop = ['10.0.0.0/8']
+        loop.append(loop)
+        return {'attr': {1: 0}, 'nlri': loop, 'withdraw': [], 'afi_safi': 'ipv4'}
+    if kind == 'update_object':
+        return {'attr': {1: 0, 99: object(), 98: {1, 2, 3}}, 'nlri': [], 'withdraw': [], 'afi_safi': 'ipv4'}
     if kind == 'update_error':
         return {'attr': {1: 0}, 'nlri': [], 'withdraw': [], 'hex': repr(b'\x00\x00\x00\x04\x40\x01\x01\x07')}
     if kind == 'open':
@@ -92,7 +101,7 @@ def fire(h, kind, rng, peer):
     """invoke one real callback; returns True if the callback is one that logs"""
     reactor._now += 1.0
     t = 1700000000.0 + reactor._now
-    if kind in ('update', 'update_big', 'update_bytes'):
+    if kind in ('update', 'update_big', 'update_bytes', 'update_tuplekey', 'update_selfref', 'update_object'):
         h.update_received(peer, t, payload(kind, rng))
     elif kind == 'update_error':
         h.on_update_error(peer, t, payload(kind, rng))
@@ -203,7 +212,7 @@ def run_shard(sh):
                     bad('callback-raised', feats, 'callback %s raised %r' % (ev, e), rep)
                     break
                 res['counters']['events'] += 1
-                res['counters']['unserialisable_payloads'] += ev == 'update_bytes'
+                res['counters']['unserialisable_payloads'] += ev in ('update_bytes', 'update_tuplekey', 'update_selfref', 'update_object')
                 n1 = count_lines(root)
                 res['counters']['rotations_forced'] += max(0, len(glob.glob(os.path.join(root, PEER, 'msg', '*.msg'))) - f0)
                 if n1 - n0 != (1 if logs else 0):
